@@ -557,6 +557,34 @@ func (cx *Ctx) checkVerifier(r *Report, fn *ssa.Function, isCrypto func(ssa.Call
 	case "undecided":
 		r.Undecided("R-VERIFIER", key, pos, msg)
 	case "nocalls":
+		// a verifier made by a factory (`verifyRSA(hash) func(key, data, sig) error`): the function literals it hands
+		// out are the verifiers
+		nOK, bad := 0, ""
+		for _, lit := range fn.AnonFuncs {
+			switch st2, _, msg2 := cx.verifierEval(lit, isCrypto); st2 {
+			case "ok":
+				nOK++
+			case "nocalls":
+			default:
+				bad = msg2
+			}
+		}
+		if nOK > 0 && bad == "" && len(returnsOf(fn)) > 0 {
+			allLits := true
+			for _, ret := range returnsOf(fn) {
+				if len(ret.Results) != 1 {
+					allLits = false
+					continue
+				}
+				if _, isMC := ret.Results[0].(*ssa.MakeClosure); !isMC {
+					allLits = false
+				}
+			}
+			if allLits {
+				r.Ok("R-VERIFIER", key, pos, "hands out verifier closures, each under the discipline")
+				return
+			}
+		}
 		r.Fail("R-VERIFIER", key, pos, "the function performs no cryptographic verification call any more")
 	default:
 		r.Fail("R-VERIFIER", key, pos, msg)
